@@ -47,7 +47,8 @@ def main(root, repo_src, plan_path):
         if d.get("deadline") is not None:
             kw["deadline"] = Deadline.from_timeout(d["deadline"])
         if d.get("metadata") is not None:
-            kw["metadata"] = {"x-who": d["metadata"]}
+            md = d["metadata"]
+            kw["metadata"] = {} if md == "<empty-dict>" else [] if md == "<empty-list>" else () if md == "<empty-tuple>" else {"x-who": md}
         return kw
 
     async def one(call):
